@@ -80,7 +80,7 @@ var properties = map[string]*Property{
 		{"VerifC09Conc@slow:t", 0, 0, []string{"crash while the plan is durably Running", "action invoked during recovery"}},
 		{"VerifC09Double:t", 0, 0, []string{"second crash during recovery", "action invoked during recovery", "action not invoked during recovery"}}},
 		[]string{"crash points are the prefixes of the durable write log of a forward run (the crash index is a solver variable; the durable image is ite-encoded); in-memory state is lost, each write is atomic",
-			"shapes: one block with <=2 sequences x <=2 actions; 1x1x1 with the 7-subset family of plan-level resp. block-level groups (all 32 subsets in thorough); two parallel sequences",
+			"shapes: one block with <=2 sequences x <=2 actions; 1x1x1 with the 7-subset family of plan-level resp. block-level groups; two parallel sequences (thorough: one scheduling deviation, and the slow-plugin scheduler)",
 			"a second crash during recovery with a third engine instance: thorough tier only, on one block x one sequence x two actions (VerifC09Double, VerifC10Double); the quick tier covers the second crash through C10's resumability clause", "real process kill on a file-backed store is outside this technique"}),
 	"C10": eProp("C10", []eRun{{"VerifC10SeqSmall", 0, 0, []string{"crash while the plan is durably Running", "uninterrupted outcome Failed", "uninterrupted outcome Completed"}},
 		{"VerifC10PlanGroups", 0, 0, []string{"crash while the plan is durably Running"}}, {"VerifC10BlockGroups", 0, 0, []string{"crash while the plan is durably Running"}},
@@ -225,7 +225,7 @@ func eProp(id string, runs []eRun, outside []string) *Property {
 	p := &Property{ID: id, Assumptions: engineAssumptions, OutsideClaim: outside}
 	ticks := [2]int{2, 2}
 	if id == "C09" || id == "C10" {
-		ticks = [2]int{1, 2} // crash harnesses multiply every forward path by its crash classes
+		ticks = [2]int{1, 1} // crash harnesses multiply every forward path by its crash classes
 	}
 	for _, r := range runs {
 		needs := r.needs
@@ -237,10 +237,10 @@ func eProp(id string, runs []eRun, outside []string) *Property {
 		fn, tonly := strings.CutSuffix(r.fn, ":t")
 		fn, full := strings.CutSuffix(fn, "@full")
 		fn, slow := strings.CutSuffix(fn, "@slow")
-		byRun := id != "C09" && id != "C10" // the crash families take their shape bounds from the tier
+		byRun := true
 		crossEvery := 0
-		if !byRun {
-			crossEvery = 10
+		if id == "C09" || id == "C10" {
+			crossEvery = 10 // cvc5 1.0 is ~7x slower than z3 on the crash families' ite-chain queries
 		}
 		p.Runs = append(p.Runs, Run{Dir: "engine", Pkg: "internal/execute/sm", Fn: fn, P: [2]int{r.pq, r.pt}, Ticks: ticks,
 			SwitchOn: []string{"yield:enter", "yield:exit"}, Needs: needs, Slow: slow, ThoroughOnly: tonly || full, Full: full, ShapesByRun: byRun, CrossEvery: crossEvery})
